@@ -4,7 +4,7 @@
 (* cannot lex 64 KiB texts token by token in bulk, so each event carries the  *)
 (* observed counts and the specification contributes the bounds:              *)
 (*  {"ev":"big","shape":..,"len":n,"out":..,"ntoks":n,"scans":n,"tiling":"", *)
-(*   "complete":bool,"ns4k":t,"ns64k":t}                                      *)
+(*   "complete":bool,"us4k":t,"us64k":t}  (microseconds; TLC integers: 32 bit) *)
 (* - exactly one of error / tree (out), never a panic or hang;                *)
 (* - the scanner's tokens tile the text (arithmetic part, computed by the     *)
 (*   driver over the public Scanner API);                                     *)
@@ -24,8 +24,9 @@ EventOK(e) ==
   /\ (e.out = "ok" => e.complete)
   /\ e.ntoks <= e.len + 1                      \* every token but EOF consumes a byte
   /\ e.scans <= 3 * e.ntoks + 4
-  /\ ~(e.ns64k > 2000000000)
-  /\ ~(e.ns64k > 50000000 /\ e.ns64k > 128 * e.ns4k)
+  /\ e.us64k >= 0 /\ e.us4k >= 0
+  /\ ~(e.us64k > 2000000)
+  /\ ~(e.us64k > 50000 /\ e.us64k > 128 * e.us4k)
 
 Init == i = 1 /\ bad = <<>>
 StepEvent == /\ i <= Len(Trace) /\ i' = i + 1
